@@ -2,6 +2,7 @@ import PolyVerif.Model.GenbankBuild
 import PolyVerif.Spec.GbStrict
 import PolyVerif.Spec.GbRoundTrip
 import PolyVerif.Driver.C01
+import PolyVerif.Spec.Insdc
 /-
 C03 driver.  Cases:
   `rec <record fields>` : a structured record (canonical serialisation, see harness ops_c03.go)
@@ -208,8 +209,9 @@ def whyNotLayout (x : Sequence) : String :=
   ++ (if textJ m.definition && textJ m.accession && textJ m.version && textJ m.keywords
         && textJ m.source && textJ m.organism then "" else "metadata-text ")
   ++ (if m.references.all wfRefJ then "" else "reference-text ")
-  ++ (if nodupKeys m.other && m.other.all (wfOtherJ 12) then "" else "other ")
+  ++ (if nodupKeys m.other && m.other.all (wfOtherJ 11) then "" else "other ")
   ++ (if x.features.all wfFeature then "" else "feature ")
+  ++ (if x.features.all wfFeatureLocJ then "" else "not-a-location ")
   ++ (if x.sequence != [] && x.sequence.all isLetter then "" else "sequence ")
 
 /-- names of the compared fields in which `x` and `y` differ -/
@@ -230,6 +232,56 @@ def diffFields (x y : Sequence) : List String :=
   ++ d "other" (sortedEntries a.other == sortedEntries b.other)
   ++ d "features" (listBeq featBeq x.features y.features)
 
+/-! ### the two known findings: which replies still ARE the finding
+
+A known finding is identified by the input class and by WHERE the reply fails, not by the exact bytes the
+present code happens to write: a record of the class that still fails to round-trip in the fields the finding
+names is the known finding, whatever the values there; a difference anywhere else is a new failure.
+* `C03-blank-run-at-wrap`: a metadata text may differ from the one given only if it is one that loses a blank at
+  a wrap point (`losesBlanks` / `rangeLosesBlanks`) and only in its blanks (equal after runs of blanks are
+  squeezed to one blank);
+* `C03-nameless-locus`: the LOCUS line / the locus fields may be anything; everything else must be as given
+  (up to the blank-run rule, which a name-less record may fall under as well). -/
+
+def squeezeAux (prevBlank : Bool) : Str → Str
+  | [] => []
+  | c :: r => if c == ' ' && prevBlank then squeezeAux true r else c :: squeezeAux (c == ' ') r
+
+/-- runs of blanks squeezed to one blank -/
+def squeeze (s : Str) : Str := squeezeAux false s
+
+def tEqK (lose : Bool) (a b : Str) : Bool := a == b || (lose && squeeze a == squeeze b)
+
+/-- `a` expected, `b` read -/
+def blockEqK (a b : SBlock) : Bool :=
+  let lose := if a.key == "REFERENCE".toList then rangeLosesBlanks a.num a.text else losesBlanks a.text
+  a.key == b.key && a.num == b.num && tEqK lose a.text b.text
+    && listBeq (fun (p q : Str × Str) => p.1 == q.1 && tEqK (losesBlanks p.2) p.2 q.2) a.subs b.subs
+
+def recEqK (a b : Rec) : Bool :=
+  a.locus == b.locus && listBeq blockEqK a.blocks b.blocks && a.feats == b.feats && a.origin == b.origin
+
+def relaxText (a b : Str) : Str := if losesBlanks a && squeeze a == squeeze b then b else a
+
+def relaxRefs : Nat → List Reference → List Reference → List Reference
+  | i, r :: rs, q :: qs =>
+    { r with range := (if rangeLosesBlanks (refNum i r) r.range && squeeze r.range == squeeze q.range then q.range else r.range),
+             authors := relaxText r.authors q.authors, title := relaxText r.title q.title,
+             journal := relaxText r.journal q.journal, pubMed := relaxText r.pubMed q.pubMed,
+             remark := relaxText r.remark q.remark } :: relaxRefs (i + 1) rs qs
+  | _, rs, _ => rs
+
+/-- `x` with every text that loses a blank at a wrap point replaced by `y`'s when the two differ in blanks only -/
+def relaxTo (x y : Sequence) : Sequence :=
+  let a := x.metadata
+  let b := y.metadata
+  { x with metadata := { a with
+      definition := relaxText a.definition b.definition, accession := relaxText a.accession b.accession,
+      version := relaxText a.version b.version, keywords := relaxText a.keywords b.keywords,
+      source := relaxText a.source b.source, organism := relaxText a.organism b.organism,
+      references := relaxRefs 0 a.references b.references,
+      other := a.other.map fun kv => (kv.1, relaxText kv.2 (StrBuild.lookupD b.other kv.1)) } }
+
 def firstDiff (a b : Str) : Nat := ((a.zip b).takeWhile fun (p : Char × Char) => p.1 == p.2).length
 
 def snippet (s : Str) (at_ : Nat) : String := String.ofList ((s.drop (at_ - 40)).take 120)
@@ -248,14 +300,18 @@ def judgeRec (kind : String) (x : Sequence) (tail : List String) : Verdict :=
     -- (`Genbank.parse` leaves `parseLocation` to property C02's model: a panic there is a panic of Parse)
     let locPanics (ym : Genbank.Sequence) : Bool :=
       ym.features.any fun f => match Location.parseLocation f.gbkLoc with | .panic => true | _ => false
-    let pcorr := match Genbank.parse m, pst, y with
+    -- (on the REAL text: it is the model's text whenever the writer corresponds)
+    let pcorr := match Genbank.parse outL, pst, y with
       | .ok ym, "ok", some yr => !locPanics ym && parsedSame ym yr
       | .ok ym, "panic", _ => locPanics ym
       | .panic, "panic", _ => true
       | _, _, _ => false
-    -- `img`: the cached location text the real parser reported must denote the structure it reported
-    let cacheOk := kind == "rec" || x.features.all fun f => f.gbkLocationString == [] || cacheConsistent f
-    let corr := outL == m && m2 == m && pcorr && cacheOk
+    -- `img`: the cached location text the real parser reported must denote the structure it reported — when the
+    -- text IS a location (INSDC grammar, 3′ marker on either side of the end position: the quantifier of C02);
+    -- what `parseLocation` makes of any other text (`bX`, `acc:1..4`, `3^4`, unbalanced) no property constrains
+    let isLocationText (t : Str) : Bool := (Insdc.insdcLenient t).isSome
+    let cacheOk := kind == "rec" || x.features.all fun f =>
+      f.gbkLocationString == [] || !isLocationText f.gbkLocationString || cacheConsistent f
     let layoutDom := wfLayoutJ x
     let rtDom := wfSeqJ x
     let thmDom := wfSeq x
@@ -266,20 +322,32 @@ def judgeRec (kind : String) (x : Sequence) (tail : List String) : Verdict :=
     -- `Reference.Index` is preserved when set; an unset one comes back as the position (be39eee)
     let xd := withDefaultIndex x
     let c4 := pst == "ok" && wrst == "same" && (match y with | some y => seqEquiv xd y && codingOk x y | none => false)
-    -- the two known findings: what they predict to come back (`expectedBack`); a failure is tagged
-    -- only when the implementation returned exactly that
-    let xe := expectedBack x
-    let anyKf := clsBlankRun x || clsNameless x
-    -- name-less record WITH a length: the reader must return exactly the predicted record (name = the length);
-    -- WITHOUT a length the LOCUS line `LOCUS   bp …` has no place for `bp`: the reader must reject the text as it
-    -- is, and must return the predicted record once that one line is replaced by the LOCUS line of the prediction
-    let c3K := if clsNameless x && x.metadata.locus.sequenceLength == [] then
-                 got == none && strictRead (withFirstLine (firstLine (build xe MapOrders.id)) outL) == some (abs xe)
-               else got == some (abs xe)
-    let c4K := pst == "ok" && wrst == "same" && (match y with | some y => seqEquiv xe y && codingOk xe y | none => false)
-    let kf := if anyKf && c2 && c3K && (!rtDom || c4K) then
-        (if clsBlankRun x then " kf:C03-blank-run-at-wrap" else "") ++ (if clsNameless x then " kf:C03-nameless-locus" else "")
+    let j := c2 && c3 && (!rtDom || c4)
+    -- the two known findings (disjoint classes, name-less first): a FAILING case is tagged when it fails only where
+    -- the finding says (see `recEqK` / `relaxTo` above); a difference anywhere else is a new failure
+    let nameless := clsNameless x
+    let anyKf := clsBlankRun x || nameless
+    -- name-less: the LOCUS line is the finding; with the LOCUS line of the same record under a placeholder name
+    -- in its place, the strict reader must return that record
+    let xp : Sequence := { x with metadata := { x.metadata with locus := { x.metadata.locus with name := "x".toList } } }
+    let c3K := if nameless then
+                 (match strictRead (withFirstLine (firstLine (build xp MapOrders.id)) outL) with
+                  | some r => recEqK (abs xp) r | none => false)
+               else (match got with | some r => recEqK (abs x) r | none => false)
+    let c4K := pst == "ok" && wrst == "same" && (match y with
+      | some y =>
+        if nameless then seqEquiv (relaxTo { xd with metadata := { xd.metadata with locus := y.metadata.locus } } y) y
+        else seqEquiv (relaxTo xd y) y && codingOk x y
+      | none => false)
+    let kf := if anyKf && !j && c2 && c3K && (!rtDom || c4K) then
+        (if clsBlankRun x then " kf:C03-blank-run-at-wrap" else "") ++ (if nameless then " kf:C03-nameless-locus" else "")
       else ""
+    -- correspondence of the writer: byte for byte; on a case that IS a known finding the model mirrors the defect,
+    -- which the property does not demand — there the text may differ (name-less: in the LOCUS line only).
+    -- Correspondence of the parser model is C03's business only where the round trip is demanded (`rtDom`).
+    let restOf (t : Str) : Str := t.dropWhile (· != '\n')
+    let textOk := outL == m || (kf != "" && (!nameless || restOf outL == restOf m))
+    let corr := textOk && m2 == m && (!rtDom || pcorr) && cacheOk
     -- regression classes of the three repaired defects (evidence only; they are judged like every other case)
     let reg := (if clsLocusSearch x then "/locus-token" else "")
       ++ (if clsSubKeyword m || clsTopKeyword m then "/keyword-at-line-start" else "")
@@ -289,7 +357,6 @@ def judgeRec (kind : String) (x : Sequence) (tail : List String) : Verdict :=
     let cached := x.features.any fun f => f.gbkLocationString != []
     let structural := x.features.any fun f => f.gbkLocationString == []
     let triv := x.features.isEmpty && !wraps
-    let j := c2 && c3 && (!rtDom || c4)
     let why :=
       (if c2 then "" else "[builds differ]") ++ (if c3 then "" else "[strict reader: " ++
           (match strictRead outL with | some _ => "other record" | none => "rejected") ++ "]")
